@@ -111,6 +111,10 @@ var c14Trees = [][][2]string{
 		{"templates/components/c.tw", "{{ a }}{{ b }}"},
 		{"templates/page.tw", "@component(\"~c\", {a: u1, b: u2, c: u3})"},
 	},
+	{ // component arguments that clash in type with page variables: which one is reported must not vary
+		{"templates/components/c.tw", "{{ a }}{{ b }}"},
+		{"templates/page.tw", "{{ a = 1 }}{{ b = 2 }}{{ c = 3 }}@component(\"~c\", {c: \"z\", a: \"x\", b: \"y\"})"},
+	},
 	{ // a healthy tree: layout + component + object printing
 		{"templates/layouts/main.tw", "L[@reserve(\"r\")|@reserve(\"s\")]"},
 		{"templates/components/c.tw", "<{{ a }}{{ b }}>"},
